@@ -107,6 +107,20 @@ func (p *Parser) getAlignmentInfo() alignmentInfo {
 	return ret
 }
 
+// runeOffset returns the byte offset of the n-th character of s (len(s) if s
+// has fewer characters).
+func runeOffset(s string, n int) int {
+	for i := range s {
+		if n == 0 {
+			return i
+		}
+
+		n--
+	}
+
+	return len(s)
+}
+
 func wrapText(s string, l int, prefix string) string {
 	var ret string
 
@@ -122,14 +136,14 @@ func wrapText(s string, l int, prefix string) string {
 
 		line = strings.TrimSpace(line)
 
-		for len(line) > l {
+		for utf8.RuneCountInString(line) > l {
 			// Try to split on space
 			suffix := ""
 
-			pos := strings.LastIndex(line[:l], " ")
+			pos := strings.LastIndex(line[:runeOffset(line, l)], " ")
 
 			if pos < 0 {
-				pos = l - 1
+				pos = runeOffset(line, l-1)
 				suffix = "-\n"
 			}
 
